@@ -211,6 +211,35 @@ def fill_sources(rng, tree, root="proj", externals=True):
     return placed
 
 
+
+# ----------------------------------------------------------------------------- AST trees for the model (protocol field T:)
+def _ast_children(node):
+    out = []
+    for field, value in ast.iter_fields(node):
+        if isinstance(value, ast.AST):
+            out.append((field, value))
+        elif isinstance(value, list):
+            out.extend((field, v) for v in value if isinstance(v, ast.AST))
+    return out
+
+
+def _ast_tokens(node, field=""):
+    if isinstance(node, ast.Import):
+        return ["~".join(["I", enc(field)] + [enc(a.name) for a in node.names])]
+    if isinstance(node, ast.ImportFrom):
+        return ["~".join(["F", enc(field), str(node.level), "%n" if node.module is None else enc(node.module)] + [enc(a.name) for a in node.names])]
+    ch = _ast_children(node)
+    out = ["~".join(["O", enc(field) if field else "", enc(type(node).__name__), str(len(ch))])]
+    for f, c in ch:
+        out.extend(_ast_tokens(c, f))
+    return out
+
+
+def tree_field(source: str) -> str:
+    """`T:` field of a scan entry: every node of the file's AST in prefix notation (children in ast.iter_child_nodes order)"""
+    return "T:" + "!".join(_ast_tokens(ast.parse(source)))
+
+
 # ----------------------------------------------------------------------------- real scans
 def write_project(tree):
     from .impl import Project
@@ -290,7 +319,9 @@ def scan_line(op, base, tree, root, mp, exclusions=("G", ("*__pycache__*",)), ex
         rec = "/".join(enc(c) for c in rel) + "|" + kind
         if v is not None and p.endswith(".py") and len(os.path.basename(p)) > 3:
             try:
-                rec += "|" + "+".join(stmt_tokens(v))
+                # the complete AST of the file in prefix notation: the model runs its own transcription of the walk of
+                # ImportConverter.convert over it, the specification reads all import nodes off the tree
+                rec += "||" + tree_field(v)
             except SyntaxError:
                 rec += "|"
         ents.append(rec)
